@@ -1,0 +1,12 @@
+//go:build verif
+// +build verif
+
+// Contracts for package sleep, read only by the verifier in /verif (build tag verif).
+// This file contains no code.
+
+package sleep
+
+// ASSUMED: asserting a waker only wakes a sleeper (goroutine scheduling); no protocol state
+// changes. (C19, the Sleeper/Waker protocol itself, is not applicable to this technique.)
+//@ func (*Waker).Assert props C07
+//@   trusted
